@@ -47,6 +47,9 @@ def cases(tier, seed):
     from . import families
     for t in families.deep_trees():
         yield ('C', t)
+    # left-deep chains as the readers build them from n-ary rules (passed as specs: deep tuples cannot be pickled)
+    for op in ('AND', 'OR'):
+        yield ('CL', op, 300)
     for t in list(cm.arith_trees()) + list(cm.onearg_aggregate_trees()):
         yield ('C', t)
 
@@ -64,11 +67,25 @@ def plan(tier):
     }
 
 
+def _chain_tree(op, n):
+    names = ('x', 'y', 'z')
+    t = names[0]
+    for i in range(1, n):
+        t = (op, t, names[i % 3] if i % 7 else ('NOT', names[i % 3], None))
+    return t
+
+
 def describe(case):
+    if case[0] == 'CL':
+        return 'CL:%s x %d' % (case[1], case[2])
     return 'C:' + sh.tree_str(case[1])
 
 
 def reduce(case):
+    if case[0] == 'CL':
+        if case[2] > 20:
+            yield ('CL', case[1], case[2] // 2)
+        return
     seen = set()
     keepcase = 'X' in sh.tree_names(case[1])
     for t in sh.tree_reductions(case[1], ('x', 'X', 'y') if keepcase else ('x', 'y', 'z')):
@@ -79,13 +96,15 @@ def reduce(case):
 
 
 def normalize(case):
+    if case[0] == 'CL':
+        return case
     if 'X' in sh.tree_names(case[1]):
         return case
     return ('C', sh.tree_normalize_vars(case[1]))
 
 
 def nontrivial(case):
-    return isinstance(case[1], tuple)
+    return case[0] == 'CL' or isinstance(case[1], tuple)
 
 
 def selftest():
@@ -115,7 +134,7 @@ PREDS = ('is_logical_constraint', 'is_arithmetic_constraint', 'is_aggregation_co
 
 
 def check(case):
-    tree = case[1]
+    tree = _chain_tree(case[1], case[2]) if case[0] == 'CL' else case[1]
     out = []
     ctc = bd.constraint('c', tree)
     engine.tick()
@@ -212,5 +231,7 @@ def check(case):
 
 
 def outcome(case):
+    if case[0] == 'CL':
+        return 'chain'
     t = case[1]
     return t[0] if isinstance(t, tuple) else 'term'
